@@ -633,6 +633,62 @@ def select_payload(eng, m, cfg, out):
 
 # ---------------------------------------------------------------------------
 
+# ---------------------------------------------------------------------------
+# C16: the normalised cut itself, against its definition
+
+def make_cut_harness(cfg, tw):
+    n, k, branch = cfg["n"], cfg["k"], cfg["branch"]
+    uns_mod = tw.mod("opfython.models.unsupervised")
+
+    def harness():
+        eng = core.engine()
+        D = D_matrix(eng, n, n)
+        opf = models.build_opf(uns_mod.UnsupervisedOPF, branch, D, min_k=1, max_k=k)
+        g, _ = build_knn_graph(tw, branch, n, D)
+        opf.subgraph = g
+        adjs, clus = [], []
+        ncl = cfg.get("clusters", 2)
+        for i in range(n):
+            others = [j for j in range(n) if j != i]
+            perms = list(itertools.permutations(others, k))
+            adj = list(perms[eng.choose(len(perms), "adj%d" % i)])
+            adjs.append(adj)
+            g.nodes[i].adjacency = [float(a) for a in adj]
+            c = eng.choose(ncl, "cl%d" % i)
+            clus.append(c)
+            g.nodes[i].cluster_label = c
+        g.n_clusters = ncl
+        cut = opf._normalized_cut(k)
+        return dict(D=D, adjs=adjs, clus=clus, cut=cut, ncl=ncl)
+    return harness
+
+
+def cut_post(eng, cfg, out, info):
+    n = cfg["n"]
+    D, adjs, clus, ncl = out["D"], out["adjs"], out["clus"], out["ncl"]
+    total = z3.RealVal(0)
+    for l in range(ncl):
+        internal, external = z3.RealVal(0), z3.RealVal(0)
+        for i in range(n):
+            if clus[i] != l:
+                continue
+            for j in adjs[i]:
+                d = to_real(D[i][j])
+                w = z3.If(d > 0, 1 / d, z3.RealVal(0))
+                if clus[j] == l:
+                    internal = internal + w
+                else:
+                    external = external + w
+        total = total + z3.If(internal + external > 0, external / (internal + external), z3.RealVal(0))
+    eng.check("normalised-cut-matches-its-definition", to_real(out["cut"]) == total, info)
+    eng.check("normalised-cut-range", z3.And(to_real(out["cut"]) >= 0, to_real(out["cut"]) <= ncl), info)
+
+
+def cut_payload(eng, m, cfg, out):
+    Dv = [[common.fraction_to_float(x) for x in r] for r in models.eval_matrix(eng, m, out["D"])]
+    return dict(kind="knn_cut", cfg=cfg, D=Dv, adjs=out["adjs"], clus=out["clus"], ncl=out["ncl"])
+
+
 KINDS = {
     "arcs": (make_arcs_harness, None, arcs_payload),
     "pdf": (make_pdf_harness, pdf_post, pdf_payload),
@@ -641,6 +697,7 @@ KINDS = {
     "predict": (make_predict_harness, predict_post, predict_payload),
     "select": (make_select_harness, select_post, select_payload),
     "e2e": (make_e2e_harness, e2e_post, e2e_payload),
+    "cut": (make_cut_harness, cut_post, cut_payload),
 }
 
 
